@@ -65,6 +65,17 @@ def prepare_suite(scen):
 
 def evaluate(prop, history):
     from travsim import oracles
+    from travsim.resolver import strip_set
+    # a test is the same test through whichever test set it was selected or found as a dependency: the oracles
+    # identify tests by their worker- and selection-invariant class (the digest was taken from the raw events)
+    for ev in history["events"]:
+        if isinstance(ev.get("cls"), str) and "cls_raw" not in ev:
+            ev["cls_raw"] = ev["cls"]
+            ev["cls"] = strip_set(ev["cls"])
+    for rec in history.get("assigned", []):
+        if isinstance(rec.get("cls"), str) and "cls_raw" not in rec:
+            rec["cls_raw"] = rec["cls"]
+            rec["cls"] = strip_set(rec["cls"])
     fn = getattr(oracles, "check_" + prop)
     extra = {}
     if prop in ("C02", "C08", "C15", "C20"):
